@@ -282,6 +282,7 @@ static void write_result(bool complete, const char* resume_sec, uint64_t resume_
 /* ------------------------------------------------------------------ crash handling */
 static void write_result(bool complete, const char* resume_sec, uint64_t resume_idx);
 static int crash_fd = -1;
+static volatile sig_atomic_t final_written;      /* the complete result file exists: never overwrite it from a handler */
 static volatile sig_atomic_t crash_written;
 static void wr(const char* s) { if (crash_fd >= 0) { ssize_t r = write(crash_fd, s, strlen(s)); (void)r; } }
 static void wru(uint64_t v) { char b[24]; int i = 23; b[i] = 0; do { b[--i] = (char)('0' + v % 10); v /= 10; } while (v); wr(b + i); }
@@ -298,7 +299,7 @@ static void write_crash(const char* kind, const char* extra) {
     wr("\nend\n");
     /* best effort: keep what this process had observed so far (not async-signal-safe; the crash record above is) */
     static volatile sig_atomic_t partial_done;
-    if (!partial_done) { partial_done = 1; alarm(20); write_result(false, pv_cur.section, pv_cur.idx); }
+    if (!partial_done && !final_written) { partial_done = 1; alarm(20); write_result(false, pv_cur.section, pv_cur.idx); }
 }
 static void on_signal(int sig) {
     const char* k = sig == SIGSEGV ? "SIGSEGV" : sig == SIGABRT ? "SIGABRT" : sig == SIGBUS ? "SIGBUS" : sig == SIGFPE ? "SIGFPE" :
@@ -390,5 +391,6 @@ int pv_main(int argc, char** argv, const char* prop, const pv_section* secs, int
     if (fini) fini();
     pv_countf((uint64_t)((now_s() - t0) * 1000), "ms.total");
     write_result(true, NULL, 0);
+    final_written = 1;
     return 0;
 }
